@@ -11,7 +11,8 @@ open Comrak.C01
 #print axioms shortestUnused_fixed_on_witnesses
 #print axioms spx_consume_total
 #print axioms spx_consume_all_total
-#print axioms spx_consume_counterexample
+#print axioms spx_consume_verbatim
+#print axioms spx_consume_former_counterexample
 #print axioms spx_consume_empty_counterexample
 #print axioms entity_codepoint_no_overflow
 #print axioms hexval_no_underflow
@@ -22,3 +23,6 @@ open Comrak.C01
 #print axioms chop_hashtags_unguarded_counterexample
 #print axioms cm_prefix_restored_partial
 #print axioms cm_prefix_underflow_counterexample
+#print axioms html_no_panic_of_shape
+#print axioms xml_no_panic_of_shape
+#print axioms cm_no_panic_of_shape
